@@ -140,6 +140,15 @@ CHECKS = {
         "operators are the u64 primitive; Coord::shift tabulated on 23,104 points. String-level round trips, deposit_bits and iteration "
         "order are not decided (they need evaluation over 64-bit data).",
    note=TB + "The witness crate is type-checked by stable cargo against /repo's chess_base."),
+ "C12": dict(cat="other", ref="DESIGN.md §3 C12",
+   technique="abstract interpretation of instantiated MIR (intervals, slice-length/ASCII/UTF-8 object facts, may-be-set bits, checked loop "
+             "invariants; modular with demand-driven inlining): reachability of every assert/panic/std-partial call from the parser entry points",
+   text="Static: for the 22 parsing entry points (FromStr for RawBoard, Board, Coord, Cell, Color, CastlingRights, uci::Move, san::Data, "
+        "san::Move; Move::from_uci*/from_san; MoveChain::push_uci_list/from_uci_list/from_fen; make::Uci/San) every assert terminator, panic "
+        "call, std call with a documented panic (slicing, split_at, unwrap, index) and unsafe precondition in the 240 reachable functions is "
+        "shown unreachable for all strings; a new std callee must be classified before the check passes. The round-trip clause is not "
+        "decided here; position-dependent stages use the stated validity assumptions (A-KING, A-UNFINISHED).",
+   note=TB + "Std functions are assumed to behave as documented (model table in rules/absint.py)."),
 }
 
 NOT_YET = {}
